@@ -184,9 +184,58 @@ def run(ctx):
             replay2["class"] = {"kind": "repair-rerun-after-inplace-overwrite"}
         report("after the fault is gone the rerun does not complete as the fault-free run does (%s %s, fault %s at %s): rerun %s, fault-free %s" %
                (fmt, opname, c["sched"], c["ev"][:50], i.split(" trace=")[0], c["base"]["res"]), replay2)
+    # ---------------- REAL directory: failures the operating system itself produces ----------------
+    # (the runs above go through the library's file-I/O interface with an injecting implementation; the DEFAULT implementation
+    # - ioutil.ReadFile / ReadDir / WriteFile behind par2.defaultFileIO and par1.defaultFileIO - is only reached on a real
+    # directory.  The harness runs as root, so permissions cannot fail; these can: a directory where a file is expected
+    # (EISDIR on read and on write), a symbolic link that points to itself (ELOOP), a file where a directory is expected
+    # (ENOTDIR).  "A file that does not exist is the only failure treated as damage": all of these must be ERRORS.)
+    rcases = []
+    for ps in p2sets:
+        if ps.created is None:
+            continue
+        names = list(ps.files)
+        victim = ps.paths[names[0]]
+        st_dir = {k_: v_ for k_, v_ in ps.created.items() if k_ != victim}; st_dir[victim + "/keep"] = b"a directory stands where the file was"
+        st_loop = dict(ps.created); st_loop[victim] = b"VHSYMLINK:" + victim.rsplit("/", 1)[1].encode()
+        for sname, st in (("protected path is a directory", st_dir), ("protected path is a symlink to itself", st_loop)):
+            rcases.append(("par2 verify|" + sname, L.line_verify("p2", "real", ps.index, 1, st, dirs=L.parent_dirs(ps.paths.values())), st, None))
+            rcases.append(("par2 repair|" + sname, L.line_repair("p2", "real", ps.index, False, 1, st, dirs=L.parent_dirs(ps.paths.values())), st, None))
+        # Create with a directory standing where an output file has to be written
+        for out in [ps.index] + ps.volumes[:1]:
+            fin = dict(ps.input_fs()); fin[out + "/keep"] = b"in the way"
+            rcases.append(("par2 create|a directory at " + out.rsplit("/", 1)[1],
+                           L.line_create("p2", "real", ps.index, ps.slice, ps.nparity, 1, [ps.paths[n] for n in ps.files], fin), fin, out))
+    for s in p1sets:
+        if s.created is None:
+            continue
+        names = [n for n, _ in s.files]
+        victim = s.paths[names[0]]
+        st_dir = {k_: v_ for k_, v_ in s.created.items() if k_ != victim}; st_dir[victim + "/keep"] = b"a directory stands where the file was"
+        st_loop = dict(s.created); st_loop[victim] = b"VHSYMLINK:" + victim.rsplit("/", 1)[1].encode()
+        for sname, st in (("protected path is a directory", st_dir), ("protected path is a symlink to itself", st_loop)):
+            rcases.append(("par1 verify|" + sname, P1.line_verify("real", s.index, True, st, dirs=[P1.DIR]), st, None))
+            rcases.append(("par1 repair|" + sname, P1.line_repair("real", s.index, False, st, dirs=[P1.DIR]), st, None))
+        for out in [s.index] + s.volumes[:1]:
+            fin = dict(s.input_fs()); fin[out + "/keep"] = b"in the way"
+            rcases.append(("par1 create|a directory at " + out.rsplit("/", 1)[1],
+                           P1.line_create("real", s.index, s.nvol, [s.paths[n] for n, _ in s.files], fin), fin, out))
+    rres = ctx.run_lines(vh, [c[1] for c in rcases])
+    for (desc, line, st, out), i in zip(rcases, rres):
+        pi = L.parse_result(i)
+        ctx.count("real|" + desc + "|" + L.hx(L.md5(line.encode())), True)
+        dist["real_directory_os_failures"] = dist.get("real_directory_os_failures", 0) + 1
+        replay = {"lines": [line], "mode": "real", "desc": desc, "impl": i[:1500], "class": {"kind": "real-directory"}}
+        if pi["res"] in ("panic", "crash"):
+            report("crash on a real directory (%s): %s" % (desc, pi.get("raw", "")[:100]), replay); continue
+        if pi["res"] == "ok":
+            report("an operating-system failure was swallowed on a real directory: %s returned success" % desc, replay); continue
+        touched = [p_ for p_ in pi["changed"] if not (out and (p_ == out or p_.startswith(out.rsplit(".", 1)[0])))]
+        if "create" not in desc and pi["changed"]:
+            report("files changed although the operation failed reading (%s): %s" % (desc, sorted(pi["changed"])), replay)
     return ctx.finish(
         "fault_enumeration" if False else "proof",
-        rule="for PAR2 and PAR1, Create / Verify / Repair on states {intact, one missing, two damaged, swapped, swapped without recovery files, data and recovery file missing}: the fault-free I/O trace is recorded, then a fault is injected at EVERY call index (every read, the directory listing, every write): error without effect, and for writes also an error after 0, 1, 7 bytes or the whole data were written; (thorough: pairs); then the fault is cleared and the operation rerun on the state left behind; non-trivial = every faulted case",
+        rule="for PAR2 and PAR1, Create / Verify / Repair on states {intact, one missing, two damaged, swapped, swapped without recovery files, data and recovery file missing}: the fault-free I/O trace is recorded, then a fault is injected at EVERY call index (every read, the directory listing, every write): error without effect, and for writes also an error after 0, 1, 7 bytes or the whole data were written; (thorough: pairs); then the fault is cleared and the operation rerun on the state left behind; plus, on a REAL directory through the default file I/O: a directory or a self-referential symbolic link at a protected path (Verify, Repair) and a directory at an output path (Create), PAR2 and PAR1 - each must be an error; non-trivial = every faulted case",
         exhaustive=True,
         extra={"input_distribution": dist,
                "predicate": "a hit fault => an error is returned; no file other than the one being written changes; no path is reported repaired unless its write completed; without a torn write the rerun ends in the fault-free result and state",
